@@ -1269,8 +1269,15 @@ func c16RunFile(ctx *Ctx, path string, f c16File) {
 	cs["load_error"] = fmt.Sprint(lerr)
 	cs["max_size_after_load"] = sh.MaxSize
 	cs["entries_after_load"] = len(sh.Entries)
-	if sh.MaxSize <= 0 {
+	// counted from the file itself (not from the object after Load, which a repaired loader sanitises)
+	var probe struct {
+		MaxSize *float64 `json:"max_size"`
+	}
+	if json.Unmarshal(f.Content, &probe) == nil && probe.MaxSize != nil && *probe.MaxSize <= 0 {
 		ctx.R.Path("files-maxsize-nonpositive", 1)
+	}
+	if sh.MaxSize <= 0 {
+		ctx.R.Path("object-maxsize-nonpositive-after-load", 1)
 	}
 	addPath := "Load+AddEntry"
 	if lerr != nil {
